@@ -199,3 +199,55 @@ func c11Collector(c *Ctx) (evals, points, drained int64) {
 	}
 	return evals, points, drained
 }
+
+// c11TwoScanners: two storage scanners of one in-memory storage, the second one
+// created after the first has yielded k rules and advanced j rules before the
+// first is drained (then the other way round): each scanner yields the
+// line-by-line parse, whatever the other one does.  (File-backed lists share
+// one descriptor offset between their scanners; the layer stays with the
+// backing for which scanners are independent objects.)
+func c11TwoScanners(c *Ctx) (evals, cases int64) {
+	lists := []c11List{{7, "||one.example^\n0.0.0.0 h1.example\n", false}, {-3, "! header\n||three.example^\n", false}, {2, "", false}, {0, "example.org##.x\n||four.example^$important\n0.0.0.0 h4.example\n", false}}
+	var want []c11Entry
+	for _, l := range lists {
+		want = append(want, c11Reference(l.content, l.id, l.ignoreCosmetic)...)
+	}
+	n := len(want)
+	step := func(sc *filterlist.RuleStorageScanner, max int, out *[]c11Entry) {
+		for k := 0; (max < 0 || k < max) && sc.Scan(); k++ {
+			r, idx := sc.Rule()
+			*out = append(*out, c11Entry{kindOf(r), r.Text(), r.GetFilterListID(), idx})
+		}
+	}
+	for k := 0; k <= n; k++ {
+		for j := 0; j <= n; j++ {
+			for _, firstDrained := range []int{1, 2} {
+				st, cleanup := c11Storage(lists, false)
+				var a, b []c11Entry
+				sc1 := st.NewRuleStorageScanner()
+				step(sc1, k, &a)
+				sc2 := st.NewRuleStorageScanner()
+				step(sc2, j, &b)
+				if firstDrained == 1 {
+					step(sc1, -1, &a)
+					step(sc2, -1, &b)
+				} else {
+					step(sc2, -1, &b)
+					step(sc1, -1, &a)
+				}
+				cleanup()
+				evals += 2
+				cases++
+				for which, got := range [][]c11Entry{a, b} {
+					if fmt.Sprint(got) != fmt.Sprint(want) {
+						c.Run.Violate(ev.Violation{Pred: "scan-equals-line-by-line-parse", Sig: map[string]any{"two_scanners": true, "k": k, "j": j, "drained_first": firstDrained, "scanner": which + 1},
+							What:   fmt.Sprintf("storage of %d in-memory lists; scanner 1 yields %d rules, then scanner 2 is created and yields %d, then scanner %d is drained before the other: scanner %d scanned %d rules %s, the line-by-line parse has %d", len(lists), k, j, firstDrained, which+1, len(got), clip(fmt.Sprint(got)), n),
+							Replay: map[string]any{"two_scanners": true}})
+						return evals, cases
+					}
+				}
+			}
+		}
+	}
+	return evals, cases
+}
